@@ -266,8 +266,14 @@ def _miri_worker(args):
     for c, r in zip(cases, out):
         if c["op"] == "conc":
             check_conc(res, c, r)
-        else:
+        elif c["op"] == "history":
             check_history(res, c, r, cross)
+        else:
+            res.evaluations += 1
+            o = top_outcome(r) if c["op"] == "exec" else outcome(r if isinstance(r, dict) and ('abort' in r or 'panic' in r) else {"ok": {"n": 0}})
+            if is_crash(o):
+                res.violation(o[0], 'compile / execute under Miri', crash_sig(o), c, observed=list(o)[:2] + [str(o[2:])[:600]])
+            res.count("program_path_cases")
     res.inconclusive.extend(drv.inconclusive)
     return res
 
@@ -287,7 +293,7 @@ def extra_stages(tier, seed, scratch, total, notes):
         notes.append({"stage": "tsan", "build": note, "units": len(sub), "executions": t.evaluations,
                       "threads_seen": sorted(t.observed.get("threads", [])), "max_overlap_seen": sorted(t.observed.get("max_overlap", [])),
                       "sanitizer_reports": sum(1 for v in t.violations if 'Sanitizer' in v["sig"][2]),
-                      "statement": "no ThreadSanitizer report on these executions"})
+                      "statement": "no ThreadSanitizer report on these executions" if not any('Sanitizer' in v["sig"][2] for v in t.violations) else "ThreadSanitizer reported (see violations)"})
         t.observed = {"tsan:" + k: v for k, v in t.observed.items()}
         total.merge(t)
     except runner.Inconclusive as e:
@@ -311,6 +317,10 @@ def extra_stages(tier, seed, scratch, total, notes):
                       "threads": 2 + (m % 2), "ops": 6, "seed": rng.getrandbits(32) | 1, "perturb": True},
                      {"id": 1, "op": "history", "vars": [[n, to_json(v)] for n, v in ctx], "progs": srcs[4:], "asts": asts[4:],
                       "seq": [rng.randrange(len(srcs) - 4) for _ in range(8)], "opts": {"hold": m % 2 == 0}}]
+            if m == 0:
+                # the Program path itself (ANTLR front end under Miri: slow, so only two sources)
+                cases.append({"id": 2, "op": "exec", "src": "x + [1]", "vars": [[n, to_json(v)] for n, v in ctx]})
+                cases.append({"id": 3, "op": "compile", "src": "1 +"})
             jobs.append((cases, os.path.join(scratch, "miri%d" % m), 1 + m, runner.HARNESS, tdir))
         t0 = time.time()
         # first process alone (builds the Miri sysroot / crate), then the rest in parallel
@@ -323,7 +333,7 @@ def extra_stages(tier, seed, scratch, total, notes):
             mt.merge(r)
         notes.append({"stage": "miri", "processes": len(jobs), "scheduler_seeds": [j[2] for j in jobs], "executions": mt.evaluations,
                       "wall_s": round(time.time() - t0, 1), "reports": len(mt.violations), "inconclusive": mt.inconclusive[:3],
-                      "statement": "no undefined behaviour or data race reported by Miri on these executions"})
+                      "statement": "no undefined behaviour or data race reported by Miri on these executions" if not mt.violations else "Miri reported (see violations)"})
         mt.observed = {"miri:" + k: v for k, v in mt.observed.items()}
         total.merge(mt)
     except runner.Inconclusive as e:
